@@ -8,7 +8,9 @@ ALL = ["C%02d" % i for i in range(1, 21)]
 PENDING = "machinery for this property is not built yet in this development round (planned in DESIGN.md section 4); nothing is claimed for it"
 
 def main():
-    specs = {p: vf.load_spec(p) for p in vf.all_specs()}
+    # only properties the lead has accepted (lib/ready.txt) are claimed; other spec files may be work in progress
+    ready = [l.strip() for l in open(os.path.join(vf.VERIF, "lib", "ready.txt")) if l.strip() and not l.startswith("#")]
+    specs = {p: vf.load_spec(p) for p in vf.all_specs() if p in ready}
     checks = []
     for p in ALL:
         if p not in specs or specs[p].get("disabled"):
